@@ -59,7 +59,8 @@ func makeReplay(rn *runner, v *variant, f foundViolation, shrink bool, tier stri
 	sig := f.V.Sig
 	try := func(p *plan.Plan) *plan.Violation {
 		rp.Tried++
-		oc := rn.runPlan(v, p.Prop, p.Seed, p.Index, "", p)
+		// candidates of a hang are not confirmed one by one
+		oc := rn.runPlanX(v, p.Prop, p.Seed, p.Index, "", p, sig == "hang")
 		return findSig(oc, sig)
 	}
 	// stream violations carry their concrete case
